@@ -62,9 +62,11 @@ KindNested == {<<"def", 0>>, <<"async", 0>>, <<"async", 1>>}
 IncOvr == {<<<<>>, 0>>, <<<<"i1", "i2">>, 0>>, <<<<"i1", "i2">>, 1>>, <<<<"dA">>, 0>>, <<<<>>, 1>>}
 Bases ==
   IF BaseLevel = 1
-  THEN {T(kn[1], kn[2], v, io[1], io[2], 0, <<>>) : kn \in KindNested, v \in {0, 1}, io \in IncOvr}
-       \cup {T(kn[1], kn[2], 0, io[1], io[2], 1, <<>>) : kn \in KindNested, io \in IncOvr}
-       \cup {T("def", 0, 0, io[1], io[2], 0, P1) : io \in IncOvr}
+  THEN {T(kn[1], kn[2], 0, io[1], io[2], 0, <<>>) : kn \in KindNested, io \in IncOvr}
+       \cup {T(kn[1], kn[2], 1, io[1], io[2], 0, <<>>) : kn \in {<<"def", 0>>, <<"async", 1>>},
+                                                        io \in {<<<<>>, 0>>, <<<<"i1", "i2">>, 1>>}}
+       \cup {T(kn[1], kn[2], 0, io[1], io[2], 1, <<>>) : kn \in KindNested, io \in {<<<<>>, 0>>, <<<<"i1", "i2">>, 1>>}}
+       \cup {T("def", 0, 0, io[1], io[2], 0, P1) : io \in {<<<<>>, 0>>, <<<<"i1", "i2">>, 1>>}}
   ELSE {T(k, n, v, i, o, w, p) : k \in {"def", "async"}, n \in {0, 1}, v \in {0, 1},
                                   i \in {<<>>, <<"i1", "i2">>, <<"dA">>}, o \in {0, 1}, w \in {0, 1},
                                   p \in {<<>>, P1, <<<<"y", "p1">>>>}}
